@@ -8,9 +8,49 @@ Invariants of the lifecycle step model (helper lemmas for
 namespace Mutagen.Proofs.Lifecycle
 open Mutagen.Model.Lifecycle
 
+/-! Values of the operation predicates. -/
+
+@[simp] theorem op_connects_1 (p : Bool) : Op.connects (.create p) = true := rfl
+@[simp] theorem op_connects_2 : Op.connects .pause = false := rfl
+@[simp] theorem op_connects_3 : Op.connects .resume = true := rfl
+@[simp] theorem op_connects_4 (w : Bool) : Op.connects (.flush w) = false := rfl
+@[simp] theorem op_connects_5 : Op.connects .reset = true := rfl
+@[simp] theorem op_connects_6 : Op.connects .terminate = false := rfl
+@[simp] theorem op_connects_7 : Op.connects .restart = false := rfl
+@[simp] theorem op_isFlush_8 (p : Bool) : Op.isFlush (.create p) = false := rfl
+@[simp] theorem op_isFlush_9 : Op.isFlush .pause = false := rfl
+@[simp] theorem op_isFlush_10 : Op.isFlush .resume = false := rfl
+@[simp] theorem op_isFlush_11 (w : Bool) : Op.isFlush (.flush w) = true := rfl
+@[simp] theorem op_isFlush_12 : Op.isFlush .reset = false := rfl
+@[simp] theorem op_isFlush_13 : Op.isFlush .terminate = false := rfl
+@[simp] theorem op_isFlush_14 : Op.isFlush .restart = false := rfl
+@[simp] theorem op_isTerminate_15 (p : Bool) : Op.isTerminate (.create p) = false := rfl
+@[simp] theorem op_isTerminate_16 : Op.isTerminate .pause = false := rfl
+@[simp] theorem op_isTerminate_17 : Op.isTerminate .resume = false := rfl
+@[simp] theorem op_isTerminate_18 (w : Bool) : Op.isTerminate (.flush w) = false := rfl
+@[simp] theorem op_isTerminate_19 : Op.isTerminate .reset = false := rfl
+@[simp] theorem op_isTerminate_20 : Op.isTerminate .terminate = true := rfl
+@[simp] theorem op_isTerminate_21 : Op.isTerminate .restart = false := rfl
+@[simp] theorem op_isRestart_22 (p : Bool) : Op.isRestart (.create p) = false := rfl
+@[simp] theorem op_isRestart_23 : Op.isRestart .pause = false := rfl
+@[simp] theorem op_isRestart_24 : Op.isRestart .resume = false := rfl
+@[simp] theorem op_isRestart_25 (w : Bool) : Op.isRestart (.flush w) = false := rfl
+@[simp] theorem op_isRestart_26 : Op.isRestart .reset = false := rfl
+@[simp] theorem op_isRestart_27 : Op.isRestart .terminate = false := rfl
+@[simp] theorem op_isRestart_28 : Op.isRestart .restart = true := rfl
+@[simp] theorem op_wf_1 (p : Bool) : Op.isWaitingFlush (.create p) = false := rfl
+@[simp] theorem op_wf_2 : Op.isWaitingFlush .pause = false := rfl
+@[simp] theorem op_wf_3 : Op.isWaitingFlush .resume = false := rfl
+@[simp] theorem op_wf_4 : Op.isWaitingFlush (.flush true) = true := rfl
+@[simp] theorem op_wf_5 : Op.isWaitingFlush (.flush false) = false := rfl
+@[simp] theorem op_wf_6 : Op.isWaitingFlush .reset = false := rfl
+@[simp] theorem op_wf_7 : Op.isWaitingFlush .terminate = false := rfl
+@[simp] theorem op_wf_8 : Op.isWaitingFlush .restart = false := rfl
+
 /-! ## Frame lemma: what a step of the run loop can change -/
 
 set_option maxHeartbeats 4000000 in
+set_option maxRecDepth 10000 in
 /-- Every step of the run loop leaves the controller's lifecycle fields, the
 session file, the registry and the client calls' phases alone. -/
 theorem loopSteps_frame {s : State} {l : Loop} {lab : Label} {s' : State} (h : (lab, s') ∈ loopSteps s l) :
@@ -82,6 +122,7 @@ theorem len1 {α : Type} {l : List α} {a b : α} (h : l.length = 1) (ha : a ∈
   | [x], _ => simp at ha hb; rw [ha, hb]
 
 set_option maxHeartbeats 16000000 in
+set_option maxRecDepth 10000 in
 theorem invA_thread {s : State} {th : Thread} {lab : Label} {s' : State} (hth : th ∈ s.threads)
     (h : (lab, s') ∈ threadSteps s th) (i : InvA s) : InvA s' := by
   obtain ⟨i1, i2, i3, i4, i5, i6, i6', i7, i8⟩ := i
